@@ -271,6 +271,21 @@ fn check_input(prop: &str, input: &[u8], max_cuts: usize, rep: &mut Report) {
                         if r.err.is_some() && r.chunk_lens.last() == Some(&0) { rep.fail("zero-length chunk on a failed run", input, cuts, cfg, format!("{:?}", r.chunk_lens)); }
                     }
                 }
+                // a handler failing at any call index (also the ones that only happen inside end()), with and without graceful bail-out
+                if prop == "C12" && base.calls > 0 {
+                    for fail_at in 1..=base.calls {
+                        for graceful in [false, true] {
+                            for cuts in all_cuts.iter().take(4) {
+                                let r = run(&split(input, cuts), cfg, &Opts { fail_at: Some(fail_at), graceful, ..Opts::default() });
+                                rep.cases += 1;
+                                let n = r.chunk_lens.len();
+                                if n > 0 && r.chunk_lens[..n - 1].iter().any(|&l| l == 0) { rep.fail("zero-length chunk before the end (handler failure injected)", input, cuts, cfg, format!("fail_at={fail_at} graceful={graceful} {:?}", r.chunk_lens)); }
+                                if r.err.is_some() && r.chunk_lens.last() == Some(&0) { rep.fail("zero-length 'end of output' chunk although the call failed", input, cuts, cfg, format!("fail_at={fail_at} graceful={graceful} {:?}", r.chunk_lens)); }
+                                if r.err.is_none() && r.chunk_lens.last() != Some(&0) { rep.fail("successful end() did not finish with a zero-length chunk", input, cuts, cfg, format!("fail_at={fail_at} {:?}", r.chunk_lens)); }
+                            }
+                        }
+                    }
+                }
             }
             "C02" | "C14" => {
                 for cuts in &all_cuts {
